@@ -474,6 +474,7 @@ def sym_int(x, base=10):
     if not items:
         raise ValueError("invalid literal for int() with base 10: %r" % x.placeholder("#"))
     e = z3.IntVal(0)
+    pure = True
     for it in items:
         if isinstance(it, str):
             if it == "_":
@@ -483,9 +484,13 @@ def sym_int(x, base=10):
             import unicodedata
 
             e = e * 10 + unicodedata.decimal(it)
+            pure = pure and it in DIGITS
         else:
             e = e * 10 + it.e
-    return mk_int(sign * e)
+    r = mk_int(sign * e)
+    if isinstance(r, SInt) and sign == 1 and pure and len(items) == len(x.items):
+        r.src = tuple(items)  # lets str(int(s)).zfill(len(s)) return s without a case split
+    return r
 
 
 class SStringIO:
